@@ -10,7 +10,7 @@ from . import run as R
 from .core import Inconclusive
 
 SITE_NAMES = {0: "ndarray_index", 1: "ndarray_offset", 2: "view_index", 3: "svec_at", 4: "svec_capacity",
-              5: "vec_at", 6: "clamp", 7: "eval_skip", 8: "kernel_write", 9: "svec_at_cap", 10: "view_index_mut"}
+              5: "vec_at", 6: "clamp", 7: "eval_skip", 8: "kernel_write", 9: "svec_at_cap", 10: "view_index_mut", 11: "clamp_placeholder"}
 
 DTYPES = {"b1": np.bool_, "i1": np.int8, "i2": np.int16, "i4": np.int32, "i8": np.int64,
           "u1": np.uint8, "u2": np.uint16, "u4": np.uint32, "u8": np.uint64,
